@@ -68,6 +68,12 @@ func c17One(token, sc bool, major, minor byte, ver, ext uint16, kind string, rep
 	case len(s1.Resps) > 0 || len(s1.Dials) > 0:
 		return "answer-after-capability-mismatch", obs, obs
 	}
+	// "the tunnel ends": every connection of the tunnel is closed by the gateway
+	for _, h := range res.World.Handlers {
+		if h.RW.Hijacked && !h.Srv.IsClosed() {
+			return "tunnel-connection-left-open-after-capability-mismatch", h.Name, obs
+		}
+	}
 	return "", "", obs
 }
 
@@ -90,7 +96,11 @@ func c17(env *Env, rep *Report) {
 		v, d, obs := c17One(b("token"), b("sc"), byte(g("major")), byte(g("minor")), 0, uint16(g("ext")), kind, rep)
 		fmt.Println("observed:", obs, "verdict:", v, d)
 		if v != "" {
-			rep.violate("C17/"+v, d, rp)
+			sig := "C17/" + v
+			if kind != "proc" {
+				sig += "/" + kind
+			}
+			rep.violate(sig, d, rp)
 		}
 		return
 	}
